@@ -182,6 +182,39 @@ pub fn v_map_collect<T, U, F: Fn(&T) -> U>(s: &[T], f: F) -> (r: Vec<U>)
     }
     out
 }
+/// `a.iter().copied().chain(Some(x)).collect::<Vec<_>>()`: the elements of `a` followed by `x`
+pub fn v_copied_chain_some<T: Copy>(a: &[T], x: T) -> (r: Vec<T>)
+    ensures r@ == a@.push(x),
+{
+    let mut out: Vec<T> = Vec::new();
+    let mut i: usize = 0;
+    while i < a.len()
+        invariant i <= a.len(), out@ == a@.take(i as int),
+        decreases a.len() - i,
+    {
+        out.push(a[i]);
+        proof { assert(a@.take(i as int + 1) =~= a@.take(i as int).push(a@[i as int])); }
+        i += 1;
+    }
+    proof { assert(a@.take(a@.len() as int) =~= a@); }
+    out.push(x);
+    out
+}
+/// `s.to_string()` for `s: &&str` (`<&str as ToString>::to_string`, through `Display`): trusted wrapper of that expression
+#[verifier::external_body]
+pub fn v_str_to_string(s: &&str) -> (o: String)
+    ensures o@ == s@,
+{
+    s.to_string()
+}
+/// `a.extend(b)` with a `Vec` argument: the elements of `b` are moved to the end of `a`, in order (what
+/// `Vec::append` does; std's `impl Extend<T> for Vec<T>` has no spec in vstd, `append` has)
+pub fn v_vec_extend<T>(a: &mut Vec<T>, b: Vec<T>)
+    ensures final(a)@ == old(a)@ + b@,
+{
+    let mut b = b;
+    a.append(&mut b);
+}
 /// `s.iter().any(f)`
 pub fn v_any<T, F: Fn(&T) -> bool>(s: &[T], f: F) -> (r: bool)
     requires forall|i: int| 0 <= i < s@.len() ==> f.requires((&#[trigger] s@[i],)),
